@@ -271,4 +271,51 @@ def hasNul (env : List (Bytes × Bytes)) : Bool := env.any fun p => p.1.contains
 def startedOf (scripts : List (Filter × Bytes)) (env : List (Bytes × Bytes)) (e : Event) : List Bytes :=
   if hasNul env then [] else runsOf scripts e
 
+/-! ### reloading the handler list
+
+`ScriptEventHandler.UpdateScripts` stores the new list in `newScripts`; `HandleEvent` swaps it in
+(`if h.newScripts != nil`) before dispatching.  The agent always passes the non-nil slice built
+by `Config.EventScripts`, also for a configuration without handlers, so `pending = some []`
+means "reload to no handlers". -/
+
+structure HandlerState where
+  /-- `Scripts`: the list in effect -/
+  scripts : List (Filter × Bytes)
+  /-- `newScripts`: `none` = nil -/
+  pending : Option (List (Filter × Bytes))
+  deriving Repr, Inhabited
+
+/-- `UpdateScripts` -/
+def updateScripts (h : HandlerState) (l : List (Filter × Bytes)) : HandlerState := { h with pending := some l }
+
+/-- the swap at the start of `HandleEvent` -/
+def swapIn (h : HandlerState) : HandlerState :=
+  match h.pending with
+  | some l => { scripts := l, pending := none }
+  | none => h
+
+/-- `HandleEvent`: swap, then start the matching scripts -/
+def handleEvent (h : HandlerState) (env : List (Bytes × Bytes)) (e : Event) : HandlerState × List Bytes :=
+  let h' := swapIn h
+  (h', startedOf h'.scripts env e)
+
+inductive HOp where
+  | update (l : List (Filter × Bytes))
+  | event (env : List (Bytes × Bytes)) (e : Event)
+  deriving Repr, Inhabited
+
+def applyOp (h : HandlerState) : HOp → HandlerState
+  | .update l => updateScripts h l
+  | .event env e => (handleEvent h env e).1
+
+def applyOps (h : HandlerState) : List HOp → HandlerState
+  | [] => h
+  | o :: rest => applyOps (applyOp h o) rest
+
+/-- the configuration last given: the last `update` of the history, the initial list if none -/
+def lastConfig (init : List (Filter × Bytes)) : List HOp → List (Filter × Bytes)
+  | [] => init
+  | .update l :: rest => lastConfig l rest
+  | .event .. :: rest => lastConfig init rest
+
 end SerfModel.EventScript
